@@ -97,7 +97,12 @@ def check_extend_sites(ctx, rep, rule):
         if marked:
             # frozen exception: the prune planner's OnlyTrees collector (used-blob search must not abort on marked
             # tree packs; that index is never used to decide that a blob is already stored)
-            exc = k == "commands::prune::PrunePlan::from_prune_options"
+            PLANNER = "commands::prune::PrunePlan::from_prune_options"
+            exc = k == PLANNER
+            if not exc and k.startswith("commands::prune::") and not b.is_closure():
+                # a private helper of the prune module that only the planner calls (`fn read_index_files(be, p)`)
+                callers = {fn_key(b2) for b2 in prog.by_crate["rustic_core"] for _, t2 in b2.calls() if "callee" in t2 and callee(t2) == b.path}
+                exc = bool(callers) and all(c == PLANNER or c.startswith(PLANNER + "::{closure") for c in callers)
             only_trees = False
             if exc:
                 for bb2, t2 in b.calls():
